@@ -141,6 +141,7 @@ type VC struct {
 	subSeen    map[string]bool
 	funSeen    map[string]bool
 	ghostTypes map[string]types.Type
+	rangeGhost map[*ssa.Range]string // map range loops: name of the ghost "keys produced so far" set
 
 	Imprecise   []string
 	UsedAssumed map[string]bool
@@ -815,12 +816,22 @@ func (vc *VC) mergeStates(conds []T, sts []*State) *State {
 	}
 	sort.Strings(gs)
 	for _, g := range gs {
-		leaves := vc.E.leavesOf(vc.ghostTypes[g])
+		leaves := vc.leavesOfGhost(vc.ghostTypes[g])
 		res := make([]T, len(leaves))
+		at := func(s *State, li int) T {
+			if gv := s.ghost[g]; li < len(gv) {
+				return gv[li]
+			}
+			// a path that has not reached the statement introducing this ghost (map-range key sets): its initial value
+			if leaves[li].Sort == SortFSet {
+				return "((as const " + SortFSet + ") false)"
+			}
+			return zeroOfSort(leaves[li].Sort)
+		}
 		for li := range leaves {
-			t := sts[len(sts)-1].ghost[g][li]
+			t := at(sts[len(sts)-1], li)
 			for i := len(sts) - 2; i >= 0; i-- {
-				t = Ite(conds[i], sts[i].ghost[g][li], t)
+				t = Ite(conds[i], at(sts[i], li), t)
 			}
 			res[li] = vc.define("g_"+g, leaves[li].Sort, t)
 		}
